@@ -455,6 +455,32 @@ def h_dmet_reorder(env, nested, canary=False, q=0, spin=0):
                    f"reordered molecule keeps charge / spin / basis / electron count (q={q}, spin={spin})")
 
 
+def h_dmet_exact(env, variants, q=0, spin=0, solver="fci", exact=True):
+    """AUXILIARY concrete shape (no solver role; numpy/scipy/PySCF numerics end to end): H4 chain split into two halves - every
+    fragment-plus-bath space is the whole orbital space - DMET energy == full-CI energy (1e-6), the fragment electron numbers
+    sum to the total (1e-5), and every way of naming the same fragments (sizes, nested index lists, relabelled atoms) gives
+    the same energy (1e-7)."""
+    from tangelo import SecondQuantizedMolecule
+    from tangelo.problem_decomposition import DMETProblemDecomposition
+    from tangelo.algorithms.classical import FCISolver
+    from symx import shim
+    xyz = [("H", (0.0, 0.0, 0.0)), ("H", (0.0, 0.0, 0.9)), ("H", (0.0, 0.1, 1.9)), ("H", (0.0, 0.0, 3.0))]
+    es = []
+    with shim.concrete_mode():
+        mol = SecondQuantizedMolecule(xyz, q=q, spin=spin, basis="sto-3g", uhf=bool(spin))
+        e_ref = float(FCISolver(SecondQuantizedMolecule(xyz, q=q, spin=spin, basis="sto-3g")).simulate()) if exact else None
+        for frag in variants:
+            d = DMETProblemDecomposition({"molecule": mol, "fragment_atoms": frag, "fragment_solvers": solver, "verbose": False})
+            d.build()
+            e = float(d.simulate())
+            dn = float(abs(d._oneshot_loop(d.chemical_potential)))
+            es.append(e)
+            env.check_true(dn < 1e-5, f"DMET[{solver}] fragments {frag}: fragment electron numbers sum to the total", detail=f"difference {dn}")
+            if exact:
+                env.check_true(abs(e - e_ref) < 1e-6, f"DMET[{solver}] fragments {frag} (fragment + bath = whole space): energy == full CI", detail=f"{e} vs {e_ref}")
+    env.check_true(max(es) - min(es) < 1e-7, f"DMET[{solver}] energy is the same for {variants}", detail=str(es))
+
+
 def shapes(tier, seed):
     rnd = random.Random(seed)
     thorough = tier == "thorough"
@@ -474,6 +500,10 @@ def shapes(tier, seed):
     out.append(Shape("dmet/reorder/triplet_01_23", h_dmet_reorder, dict(nested=[[0, 1], [2, 3]], spin=2)))
     out.append(Shape("dmet/reorder/cation-doublet_21_03", h_dmet_reorder, dict(nested=[[2, 1], [0, 3]], q=1, spin=1)))
     out.append(Shape("dmet/reorder/dication_10_32", h_dmet_reorder, dict(nested=[[1, 0], [3, 2]], q=2, spin=0)))
+    halves = [[2, 2], [[0, 1], [2, 3]], [[1, 0], [3, 2]], [[2, 3], [0, 1]]]
+    out.append(Shape("aux/dmet_exact/H4/fci", h_dmet_exact, dict(variants=halves)))
+    # two electrons only: the bath of a half is one orbital, fragment + bath is NOT the whole space -> relabelling invariance only
+    out.append(Shape("aux/dmet_relabel/H4-dication/fci", h_dmet_exact, dict(variants=halves[:3], q=2, exact=False)))
     out.append(Shape("canary/dmet/reorder", h_dmet_reorder, dict(nested=[[1, 2], [0, 3]], canary=True), canary=True))
     n = len(GEOM7)
     # ---- (a) fixed core
